@@ -1,7 +1,5 @@
 // C20 — text and JSON forms round-trip and reject corrupted identifiers.
 //
-// (mutant table: see the end of this comment block; filled in after the sensitivity runs)
-//
 // Units
 //
 //	TestJSON      for every row of the type table (table_test.go: every type the property names,
@@ -10,25 +8,73 @@
 //	              sentinel payout, and re-marshalling the decoded value gives the same bytes.
 //	TestText      MarshalText/UnmarshalText, String/Parse* (ParseCurrency, ParseAddress,
 //	              ParseChainIndex, SettingsID.LoadString) for every type that has them, plus the
-//	              expected text recomputed independently (hex, BLAKE2b checksum from x/crypto).
+//	              expected text recomputed independently (hex, BLAKE2b checksum from x/crypto), and
+//	              parsing into a receiver that already holds another value of the type.
 //	TestPolicy    SpendPolicy: ParseSpendPolicy(p.String()) == p and the JSON object form, with
 //	              deep / wide thresholds, uc policies with 64-bit signature counts and specifiers of
 //	              every shape, times in years 0..9999.
 //	TestReject    address strings: every single-character substitution (76 positions x 29 characters)
 //	              is rejected or parses to the same address (hex case); identifiers of every
 //	              hash/ID/key/signature/chain-index/account type with wrong length, prefix or alphabet
-//	              are rejected with an error (no panic) through UnmarshalText, Parse* and JSON.
+//	              are rejected with an error (no panic) through UnmarshalText, Parse* and JSON; the same
+//	              for the fixed-size hex fields that only exist inside JSON objects (storage proof
+//	              leaves, policy preimages).
 //	TestUpdates / TestUpdatesSynthetic
 //	              every ApplyUpdate / RevertUpdate of generated chains (signed simulator chains with
 //	              reorgs; unsigned synthetic chains with random spend masks and growth) goes through
 //	              JSON; the round-tripped update must report the same diffs and refresh every tracked
 //	              element (live, spent-tracked, chain index) to exactly the proofs the original
 //	              produces, all of which verify against the state's accumulator (recomputed with
-//	              x/crypto BLAKE2b), and report the same tree nodes.
+//	              x/crypto BLAKE2b), and report the same tree nodes; the attestation elements in the
+//	              JSON are the block's attestations.
 //	TestFixpoint  mutated printed forms: parse must not panic; whatever parses must print and parse
 //	              back to the same value (stands in for the native fuzz campaign of the design).
 //	TestTable     completeness guard (go/parser scan of the repository) + zero/minimal values.
 //	TestKnown     minimal reproductions of the defects found on the pinned tree.
+//
+// Sensitivity (tools/with_mutant.sh <patch> -- ./run C20 quick on the tree with all fixes; wall seconds
+// of the whole sharded run incl. ~15-25 s rebuild, machine shared with other builders; "by" = first failing oracle):
+//
+//	M01 Address.UnmarshalText compares 5 of the 6 checksum bytes ............... killed 66 s  reject (substitution in the last checksum byte accepted)
+//	M02 Specifier.String without strconv.Quote ................................. killed 46 s  policy string / json
+//	M03 FileContractRevision.UnmarshalJSON does not restore the sentinel payout . killed 34 s  json sentinel
+//	M04 V2FileContractElementDiff.UnmarshalJSON tag typo ("create") ............. killed 55 s  json
+//	M05 unmarshalHex length check removed (panic on over-long hex) .............. killed 26 s  reject (panic)
+//	M06 V2FileContractElementDiff splice labels a storage proof "renewal" ....... killed 69 s  json
+//	M07 unmarshalHex accepts short input ........................................ killed 37 s  text / reject
+//	M08 PublicKey.UnmarshalText does not check the algorithm prefix ............. killed 34 s  reject (wrong prefix accepted)
+//	M09 ParseCurrency unit KS = 10^28 ........................................... killed 40 s  text (ParseCurrency(String()))
+//	M10 SatisfiedPolicy.UnmarshalJSON drops the signatures ...................... killed 60 s  json
+//	M11 elementLeaf.UnmarshalJSON drops the spent flag (half of F8) ............. killed 71 s  updates (re-print; proofs)
+//	M12 ApplyUpdate.UnmarshalJSON drops treeGrowth .............................. killed 33 s  updates
+//	M13 RevertUpdate.UnmarshalJSON drops numLeaves .............................. killed 41 s  updates
+//	M14 thresh(n,...) parsed with 7 bits ........................................ killed 27 s  policy string
+//	M15 Specifier.UnmarshalText rejects 16-byte specifiers ...................... killed 39 s  json
+//	M16 UnlockKey.UnmarshalText splits at the first colon ....................... killed 41 s  json (quoted specifier with ':')
+//	M17 ElementAccumulator.UnmarshalJSON re-uses the first tree ................. killed 39 s  json
+//	M18 State.OakTime tagged json:"-" ........................................... killed 70 s  json
+//	M19 rhp4 Account.UnmarshalText accepts short input .......................... killed 38 s  reject
+//	M20 ProtocolVersion.UnmarshalText swaps minor/patch ......................... killed 50 s  json
+//	M21 after(t) JSON in milliseconds on the marshal side ....................... killed 82 s  json
+//	M22 rhp2 HostSettings.MarshalJSON omits siamuxport .......................... killed 41 s  json
+//	M23 Address.String checksums 31 bytes ....................................... killed 36 s  json / text form
+//	M24 address checksum 5 bytes on BOTH sides (round trip intact) .............. killed 33 s  text form (independent statement)
+//	M25 ChainIndex height parsed with base 0 ("0x.." accepted) .................. killed 27 s  reject
+//	M26 Transaction.MarshalJSON output id shadows the address ................... killed 38 s  json
+//	M27 StorageProof.MarshalJSON truncates the leaf ............................. killed 76 s  json
+//	M28 uc(...) signature count printed as uint32 ............................... killed 45 s  policy string
+//	M29 V2FileContractResolution.UnmarshalJSON: expiration decoded as proof ..... killed 68 s  json
+//	M30 policy tokenizer ignores quotes again (fix of F9b reverted) ............. killed 30 s  policy string + TestKnown
+//	M31 Specifier.UnmarshalText does not clear the receiver (fix reverted) ...... killed 60 s  text reused receiver + TestKnown
+//	M32 Specifier.String trims leading NULs too ................................. killed 79 s  json
+//	M33 RevertUpdate.MarshalJSON drops the attestation elements ................. killed 86 s  updates (survived before the attestation oracle was added)
+//	M34 ApplyUpdate.UnmarshalJSON drops the attestation elements ................ killed 70 s  updates
+//	M35 FileContractElementDiff.Revision tagged json:"-" ........................ killed 85 s  json
+//	M36 StorageProof.UnmarshalJSON accepts a short leaf ......................... killed 41 s  reject (survived until the JSON hex fields were added to TestReject)
+//	M37 SatisfiedPolicy.UnmarshalJSON accepts a short preimage .................. killed 23 s  reject (same)
+//
+// No survivor is left among the mutants tried. Not detectable by construction: a json tag renamed on a
+// struct shared by both directions (the round trip is intact and no wire format is specified).
 package c20
 
 import (
